@@ -372,6 +372,16 @@ def libpass_strings(quick, seed):
         for m, t, p in ((8, 1, 1), (65536, 3, 4), (19456, 2, 1)):
             for saltn in (11, 22, 43):
                 out.append(("phc-argon2", f"id={idn}", f"${idn}$v=19$m={m},t={t},p={p}${walk(saltn, 1, ab64[:62])}${walk(43, 9, ab64[:62])}"))
+    # the optional PHC version segment: elided, and every other value than the definition's.  These strings are
+    # well-formed PHC; whether a definition accepts them is its business, but IF it does, it must give them back
+    # unchanged (a version-less Argon2 string denotes v=0x10, not v=19)
+    for idn in ("argon2id", "argon2i", "argon2d"):
+        for ver in ("", "$v=16", "$v=18", "$v=20", "$v=1"):
+            for m, t, p in ((8, 1, 1), (65536, 3, 4)):
+                out.append(("phc-maybe-argon2", f"id={idn},v={ver[3:] or 'none'}", f"${idn}{ver}$m={m},t={t},p={p}${walk(22, 1, ab64[:62])}${walk(43, 9, ab64[:62])}"))
+    for ver in ("$v=2", "$v=1", "$v=19"):
+        for t in ("2a", "2b"):
+            out.append(("phc-maybe-bcrypt-sha256", f"t={t},v={ver[3:]}", f"$bcrypt-sha256{ver}$v=2,t={t},r=12${walk(21, 2, b64c)}O${walk(31, 4, b64c)}"))
     return out
 
 
@@ -399,6 +409,17 @@ def eval_libpass(case):
             info = inspect_phc(s, BcryptSHA256PHCV2)
         elif kind == "phc-argon2":
             info = inspect_phc(s, Argon2PHC)
+        elif kind.startswith("phc-maybe"):
+            infos = [inspect_phc(s, d) for d in (Argon2PHC, BcryptSHA256PHCV2, [Argon2PHC, BcryptSHA256PHCV2], [BcryptSHA256PHCV2, Argon2PHC])]
+            out = []
+            for info in infos:
+                if info is None:
+                    continue
+                back = info.as_str()
+                if back != s:
+                    out.append((key + "roundtrip", f"inspect_phc({s!r}) is accepted as {type(info).__name__} but as_str() = {back!r}"))
+                    break
+            return out
         else:
             raise core.HarnessError(kind)
     except core.HarnessError:
